@@ -17,8 +17,8 @@ REG = "cirkit/symbolic/registry.py"
 
 MUTATIONS = [
     # ---------------------------------------------------------------- C03
-    dict(id="c03-reduce-axis", file=OPS, old="reduce_lse = ReduceLSEParameter(sl.logits.shape, axis=1)", new="reduce_lse = ReduceLSEParameter(sl.logits.shape, axis=0)", expect={"C03": ["R2e:cirkit.symbolic.operators.integrate_categorical_layer:axis"]}),
-    dict(id="c03-logspace-flag", file=OPS, old="int_sl = ConstantValueLayer(sl.num_output_units, log_space=False, value=value)", new="int_sl = ConstantValueLayer(sl.num_output_units, log_space=True, value=value)", expect={"C03": ["R2e:cirkit.symbolic.operators.integrate_embedding_layer:space"]}),
+    dict(id="c03-reduce-axis", file=OPS, old="reduce_lse = ReduceLSEParameter(sl.logits.shape, axis=1)", new="reduce_lse = ReduceLSEParameter(sl.logits.shape, axis=0)", expect={"C03": ["R2e:cirkit.symbolic.operators.integrate_categorical_layer:axis"]}, allow_others=True),
+    dict(id="c03-logspace-flag", file=OPS, old="int_sl = ConstantValueLayer(sl.num_output_units, log_space=False, value=value)", new="int_sl = ConstantValueLayer(sl.num_output_units, log_space=True, value=value)", expect={"C03": ["R2e:cirkit.symbolic.operators.integrate_embedding_layer:space"]}, allow_others=True),
     dict(id="c03-drop-ref", file=OPS, old="        log_partition = sl.log_partition.ref()\n    int_sl", new="        log_partition = sl.log_partition\n    int_sl", expect={"C03": ["R2a:cirkit.symbolic.operators.integrate_gaussian_layer"], "C10": ["R2a:cirkit.symbolic.operators.integrate_gaussian_layer"]}),
     dict(id="c03-guard-or-and", file=FUN, old="""    if not sc.is_smooth or not sc.is_decomposable:
         raise StructuralPropertyError(
@@ -35,7 +35,7 @@ MUTATIONS = [
             metadata={"scope": sc.scope},""", expect={"C03": ["metadata:scope"]}),
     dict(id="c03-const-one", file=OPS, old="""    if sl.logits is None:
         log_partition = Parameter.from_input(ConstantParameter(sl.num_output_units, value=0.0))""", new="""    if sl.logits is None:
-        log_partition = Parameter.from_input(ConstantParameter(sl.num_output_units, value=1.0))""", expect={"C03": ["R2e:cirkit.symbolic.operators.integrate_categorical_layer:const"]}),
+        log_partition = Parameter.from_input(ConstantParameter(sl.num_output_units, value=1.0))""", expect={"C03": ["R2e:cirkit.symbolic.operators.integrate_categorical_layer:const"]}, allow_others=True),
     # ---------------------------------------------------------------- C07
     dict(id="c07-drop-probs", file=OPS, old="        logits=logits,\n        probs=probs,\n    )", new="        logits=logits,\n    )", expect={"C07": ["R2c:cirkit.symbolic.operators.conjugate_categorical_layer:param=probs"]}),
     dict(id="c07-no-conjugate-wrap", file=OPS, old="    coeff = Parameter.from_unary(ConjugateParameter(sl.coeff.shape), sl.coeff.ref())", new="    coeff = sl.coeff.ref()", expect={"C07": ["R2d:cirkit.symbolic.operators.conjugate_polynomial_layer:param=coeff"]}),
@@ -272,7 +272,7 @@ MUTATIONS += [
     dict(id="r4l-kron-forward-order", file=TINNER, old="            y0 = y0.unsqueeze(dim=-1)  # (F, B, K, 1).\n            y1 = x[:, i].unsqueeze(dim=-2)  # (F, B, 1, Ki).", new="            y0 = y0.unsqueeze(dim=-2)  # (F, B, K, 1).\n            y1 = x[:, i].unsqueeze(dim=-1)  # (F, B, 1, Ki).", expect={"C01": ["R4l:cirkit.backend.torch.layers.inner.TorchKroneckerLayer:layout"]}, allow_others=True),
     dict(id="r4l-sum-flatten-order", file=TINNER, old="        x = x.permute(0, 2, 1, 3).flatten(start_dim=2)\n        weight = self.weight()\n        return self.semiring.einsum(\n            \"fbi,foi->fbo\"", new="        x = x.permute(0, 2, 3, 1).flatten(start_dim=2)\n        weight = self.weight()\n        return self.semiring.einsum(\n            \"fbi,foi->fbo\"", expect={"C01": ["R4l:cirkit.backend.torch.layers.inner.TorchSumLayer:layout"]}, allow_others=True),
     dict(id="r12b-tucker-pairing", file=TOPT, old="            tuple((0, 1, i + 2) for i in range(arity))", new="            tuple((0, 1, arity + 1 - i) for i in range(arity))", expect={"C02": ["R12b:cirkit.backend.torch.optimization.layers.apply_tucker"], "C01": ["R12b:cirkit.backend.torch.optimization.layers.apply_tucker"]}),
-    dict(id="r12b-einsum-flatten-order", patch="seeded/C03a/patch.diff", expect={"C01": ["R12b:"], "C02": ["R12b:cirkit.backend.torch.optimization.parameters.apply_sum_outer_prod_einsum"], "C03": ["R12b:cirkit.backend.torch.optimization.parameters.apply_sum_outer_prod_einsum"]}),
+    dict(id="r12b-einsum-flatten-order", patch="seeded/C03a/patch.diff", expect={"C01": ["R12b:"], "C02": ["R12b:cirkit.backend.torch.optimization.parameters.apply_sum_outer_prod_einsum"], "C03": ["R12b:cirkit.backend.torch.optimization.parameters.apply_sum_outer_prod_einsum"]}, allow_others=True),
     dict(id="q-kron-forward-loop-names", file=TINNER, old="            y0 = y0.unsqueeze(dim=-1)  # (F, B, K, 1).\n            y1 = x[:, i].unsqueeze(dim=-2)  # (F, B, 1, Ki).", new="            y0 = y0[..., None]  # (F, B, K, 1).\n            y1 = x[:, i].unsqueeze(dim=2)  # (F, B, 1, Ki).", expect={}, quiet=True),
     dict(id="l2-kron-perm-inverse", patch="seeded/C04b/patch.diff", expect={"C04": ["L2:cirkit.symbolic.operators.multiply_kronecker_layers:permutation"]}),
     dict(id="l2-kron-perm-axes", file=OPS, old="axes=sum(((1 + a, 1 + a + arity) for a in range(arity)), start=(0,))", new="axes=sum(((1 + a + arity, 1 + a) for a in range(arity)), start=(0,))", expect={"C04": ["L2:cirkit.symbolic.operators.multiply_kronecker_layers:permutation"]}),
@@ -292,7 +292,7 @@ MUTATIONS += [
     dict(id="r13c-hmm-position", patch="seeded/C12a/patch.diff", expect={"C12": ["R13c:cirkit.templates.pgms.hmm"], "C20": ["R13c:cirkit.templates.pgms.hmm"]}),
     dict(id="r13c-hmm-zip", patch="seeded/C20a/patch.diff", expect={"C20": ["R13"], "C12": ["R13"]}),
     dict(id="r13d-filtered-enumerate", patch="seeded/C11a/patch.diff", expect={"C11": ["R13d:cirkit.backend.torch.queries.IntegrateQuery.scopes_to_mask"]}),
-    dict(id="r8m-bound-check", patch="seeded/C11b/patch.diff", expect={"C11": ["R8m:cirkit.backend.torch.queries.IntegrateQuery.scopes_to_mask"]}),
+    dict(id="r8m-bound-check", patch="seeded/C11b/patch.diff", expect={"C11": ["R8m:cirkit.backend.torch.queries.IntegrateQuery.scopes_to_mask"]}, allow_others=True),
     dict(id="r7n-per-node", patch="seeded/C16a/patch.diff", expect={"C08": ["R7n:"], "C16": ["R7n:cirkit.templates.region_graph.graph.RegionGraph.is_structured_decomposable"]}),
     dict(id="r7n-scope-identity", patch="seeded/C16b/patch.diff", expect={"C16": ["R7n:cirkit.templates.region_graph.graph.RegionGraph.dump"]}),
     dict(id="r6e-cached-factory", patch="seeded/C18a/patch.diff", expect={"C18": ["R6e:cirkit.symbolic.registry.OperatorRegistry.from_default_rules"]}),
@@ -340,7 +340,7 @@ MUTATIONS += [
     dict(id="r6s-compiler-state-class-level", edits=[(COMP, "        self._compiled_parameters: dict[TensorParameter, tuple[TorchTensorParameter, int]] = {}\n", "        pass\n"), (COMP, "class TorchCompilerState:\n", "class TorchCompilerState:\n    _compiled_parameters: dict[TensorParameter, tuple[TorchTensorParameter, int]] = {}\n\n")], expect={"C10": ["R6s:cirkit.backend.torch.compiler.TorchCompilerState"]}),
     dict(id="q-r6s-class-default-rebound", quiet=True, edits=[(COMP, "class TorchCompilerState:\n", "class TorchCompilerState:\n    _compiled_parameters: dict[TensorParameter, tuple[TorchTensorParameter, int]] = {}\n\n")], expect={}),
     # ---- R2e const-guard
-    dict(id="r2e-const-guard-softmax-kind", patch="seeded/C03b/patch.diff", expect={"C03": ["R2e:cirkit.symbolic.operators.integrate_categorical_layer:const-guard"]}),
+    dict(id="r2e-const-guard-softmax-kind", patch="seeded/C03b/patch.diff", expect={"C03": ["R2e:cirkit.symbolic.operators.integrate_categorical_layer:const-guard"]}, allow_others=True),
     dict(id="q-r2e-const-guard-axis-checked", quiet=True, edits=[(OPS, "    LogParameter,\n    OuterProductParameter,", "    LogParameter,\n    LogSoftmaxParameter,\n    OuterProductParameter,"), (OPS, "    if sl.logits is None:\n        log_partition = Parameter.from_input(ConstantParameter(sl.num_output_units, value=0.0))\n    else:\n        reduce_lse", "    if sl.logits is None or (\n        isinstance(sl.logits.output, LogSoftmaxParameter) and sl.logits.output.axis in (1, -1)\n    ):\n        log_partition = Parameter.from_input(ConstantParameter(sl.num_output_units, value=0.0))\n    else:\n        reduce_lse")], expect={}),
     # ---- R5d exponent ramp
     dict(id="r5d-hoisted-ramp-loop-counter", patch="seeded/C05b/patch.diff", expect={"C05": ["R5d:"], "C14": ["R5d:"]}),
@@ -362,7 +362,7 @@ MUTATIONS += [
     # ---- wave-3 seeds as kept
     dict(id="w3-c02c-addressbook-prefix", patch="seeded/C02c/patch.diff", expect={"C14": ["R3g:"], "C01": ["R3g:"], "C02": ["R3g:"]}),
     dict(id="w3-c02d-stacked-sorted", patch="seeded/C02d/patch.diff", expect={"C01": ["R3g:"], "C02": ["R3g:"]}, allow_others=True),
-    dict(id="w3-c03c-einsum-index-order", patch="seeded/C03c/patch.diff", expect={"C01": ["R12b:"], "C03": ["R12b:"], "C02": ["R12b:"]}),
+    dict(id="w3-c03c-einsum-index-order", patch="seeded/C03c/patch.diff", expect={"C01": ["R12b:"], "C03": ["R12b:"], "C02": ["R12b:"]}, allow_others=True),
     dict(id="w3-c03d-integrate-topological-outputs", patch="seeded/C03d/patch.diff", expect={"C03": ["R7e:"]}),
     dict(id="w3-c06c-dtype-fold-key", patch="seeded/C06c/patch.diff", expect={"C06": ["R3d:"], "C02": ["R3d:"], "C13": ["R3d:"], "C17": ["R3d:"]}),
     dict(id="w3-c06d-evidence-repeat-view", patch="seeded/C06d/patch.diff", expect={"C06": ["R4x:"], "C01": ["R4x:"]}),
@@ -466,7 +466,7 @@ MUTATIONS += [
     dict(id="w6-c20e", patch="seeded/C20e/patch.diff", expect={'C20': ['R14k:']}, allow_others=True),
     dict(id="w6-c20f", patch="seeded/C20f/patch.diff", expect={'C20': ['R13f:']}, allow_others=True),
     dict(id="r8-smoothing-extends-any-node", file="cirkit/templates/logic/graph.py", old="                    if isinstance(input_to_d, ConjunctionNode):", new="                    if input_to_d in in_nodes:", expect={"C20": ["R8:cirkit.templates.logic.graph.LogicalCircuit.smooth:smoothing-conjoins"]}),
-    dict(id="r14g-sorted-pairs", file=FUN, old="            next_to_multiply = [(l1_inputs[i], l2_inputs[l2_matches[i]]) for i in range(len(l1_inputs))]", new="            next_to_multiply = [(l1_inputs[i], l2_inputs[j]) for i, j in zip(l1_ranks, l2_ranks)]", expect={"C04": ["R14g:"]}),
+    dict(id="r14g-sorted-pairs", file=FUN, old="            next_to_multiply = [(l1_inputs[i], l2_inputs[l2_matches[i]]) for i in range(len(l1_inputs))]", new="            next_to_multiply = [(l1_inputs[i], l2_inputs[j]) for i, j in zip(l1_ranks, l2_ranks)]", expect={"C04": ["R14g:"]}, allow_others=True),
     # ---- wave-7 seeds as kept
     dict(id="w7-c08e", patch="seeded/C08e/patch.diff", expect={'C08': ['R7d:']}, allow_others=True),
     dict(id="w7-c08f", patch="seeded/C08f/patch.diff", expect={'C08': ['R7t:']}, allow_others=True),
@@ -499,7 +499,7 @@ MUTATIONS += [
     dict(id="r5g-einsum-not-promoted", file="cirkit/backend/torch/parameters/optimized.py", old="        xs = tuple(x.to(dtype) for x in xs)\n", new="", expect={"C02": ["R5g:cirkit.backend.torch.parameters.optimized.TorchEinsumParameter"], "C07": ["R5g:"]}),
     dict(id="q-r5g-matmul-type-as", quiet=True, file=TNODES, old="        dtype = torch.promote_types(x1.dtype, x2.dtype)\n        return torch.matmul(x1.to(dtype), x2.to(dtype))", new="        out_dtype = torch.result_type(x1, x2)\n        lhs, rhs = x1.to(out_dtype), x2.to(out_dtype)\n        return torch.matmul(lhs, rhs)", expect={}),
     dict(id="q-r3l-running-sum", quiet=True, file=FOLD, old="    cum_module_ids = [\n        dict(zip(mids, itertools.accumulate([0] + [num_folds[mid] for mid in mids])))\n        for mids in in_module_ids\n    ]\n", new="    cum_module_ids: list[dict[int, int]] = []\n    for mids in in_module_ids:\n        offset = 0\n        offsets: dict[int, int] = {}\n        for mid in mids:\n            offsets[mid] = offset\n            offset += num_folds[mid]\n        cum_module_ids.append(offsets)\n", expect={}),
-    dict(id="r3l-accumulate-without-zero", file=FOLD, old="            itertools.accumulate([0] + module_fold_sizes),", new="            itertools.accumulate(module_fold_sizes),", expect={"C01": ["R3l:"], "C02": ["R3l:"], "C06": ["R3l:"]}),
+    dict(id="r3l-accumulate-without-zero", file=FOLD, old="            itertools.accumulate([0] + module_fold_sizes),", new="            itertools.accumulate(module_fold_sizes),", expect={"C01": ["R3l:"], "C02": ["R3l:"], "C06": ["R3l:"]}, allow_others=True),
     dict(id="r3m-reversed-fold-idx", file="cirkit/backend/torch/circuits.py", old="None, [fold_idx_info.out_fold_idx], num_folds=num_folds, output=True", new="None, [list(reversed(fold_idx_info.out_fold_idx))], num_folds=num_folds, output=True", expect={"C01": ["R3m:"], "C02": ["R3m:"], "C06": ["R3m:"]}, allow_others=True),
     dict(id="q-r11l-seed-clamped", quiet=True, patch="seeded/C12e/patch.diff", edits=[(TINPUT, "            log_probs, log_compl_probs = torch.log(probs), torch.log1p(-probs)", "            probs = torch.distributions.utils.clamp_probs(probs)\n            log_probs, log_compl_probs = torch.log(probs), torch.log1p(-probs)")], expect={}),
     dict(id="q-r11l-seed-xlogy", quiet=True, patch="seeded/C12e/patch.diff", edits=[
